@@ -73,7 +73,7 @@ pub fn run(ctx: &Ctx) {
 
 /// Replay every file under /verif/corpus/<name>/ (worker-sharded).
 pub fn replay_corpus(ctx: &Ctx, name: &str, f: impl Fn(&Ctx, &[u8]) -> Verdict) {
-    let dir = std::path::PathBuf::from(crate::fw::VERIF_DIR).join("corpus").join(name);
+    let dir = std::path::PathBuf::from(crate::fw::verif_dir()).join("corpus").join(name);
     let mut files: Vec<std::path::PathBuf> = std::fs::read_dir(&dir).map(|rd| rd.filter_map(|e| e.ok()).map(|e| e.path()).filter(|p| p.is_file()).collect()).unwrap_or_default();
     files.sort();
     for (i, p) in files.iter().enumerate() {
